@@ -293,32 +293,58 @@ impl Cfg {
         }
         match self.nnfa_builder().build(pats) {
             Err(_) => "none".to_string(),
-            Ok(n) => prefilter_name(n.prefilter()),
+            Ok(n) => prefilter_name(n.prefilter(), pats),
         }
     }
 }
 
-pub fn prefilter_name(p: Option<&aho_corasick::automaton::Prefilter>) -> String {
+/// Which prefilter a searcher uses, decided by how the prefilter BEHAVES (type
+/// names in Debug output are an implementation detail): a prefilter that
+/// confirms matches itself is "Memmem" (one pattern) or "Packed"; otherwise the
+/// number of candidate bytes (asked about one-byte haystacks) gives One / Two /
+/// Three, and it is a rare-byte prefilter if it reports a position before the
+/// byte it found, or if its bytes are not the patterns' first bytes.
+pub fn prefilter_name(p: Option<&aho_corasick::automaton::Prefilter>, pats: &[Vec<u8>]) -> String {
+    use aho_corasick::automaton::Candidate;
+    use aho_corasick::Span;
     let p = match p {
         None => return "none".to_string(),
         Some(p) => p,
     };
-    let d = format!("{:?}", p);
-    for name in [
-        "Memmem",
-        "StartBytesOne",
-        "StartBytesTwo",
-        "StartBytesThree",
-        "RareBytesOne",
-        "RareBytesTwo",
-        "RareBytesThree",
-        "Packed",
-    ] {
-        if d.contains(&format!("finder: {}", name)) {
-            return name.to_string();
+    if let Some(q) = pats.iter().find(|q| !q.is_empty()) {
+        if let Candidate::Match(_) = p.find_in(q, Span { start: 0, end: q.len() }) {
+            return if pats.len() == 1 { "Memmem" } else { "Packed" }.to_string();
         }
     }
-    "unknown".to_string()
+    let mut cand: Vec<u8> = vec![];
+    for b in 0..=255u8 {
+        let one = [b];
+        if !matches!(p.find_in(&one, Span { start: 0, end: 1 }), Candidate::None) {
+            cand.push(b);
+        }
+    }
+    if cand.is_empty() || cand.len() > 3 {
+        return "unknown".to_string();
+    }
+    let fill = (0..=255u8).find(|b| !cand.contains(b)).unwrap_or(0);
+    let mut rare = false;
+    for &b in &cand {
+        let hay = [fill, fill, fill, b];
+        if let Candidate::PossibleStartOfMatch(i) = p.find_in(&hay, Span { start: 0, end: 4 }) {
+            if i < 3 {
+                rare = true;
+            }
+        }
+    }
+    if !rare {
+        // offsets all zero: the same behaviour as a start-byte prefilter; it is
+        // one if its bytes are exactly the first bytes (with their case partners)
+        let fold = |b: u8| b.to_ascii_lowercase();
+        let firsts: std::collections::BTreeSet<u8> = pats.iter().filter_map(|q| q.first().copied()).map(fold).collect();
+        let cands: std::collections::BTreeSet<u8> = cand.iter().copied().map(fold).collect();
+        rare = firsts != cands;
+    }
+    format!("{}{}", if rare { "RareBytes" } else { "StartBytes" }, ["One", "Two", "Three"][cand.len() - 1])
 }
 
 #[inline]
